@@ -128,6 +128,14 @@ fn point_code(p: &str) -> i64 {
         "uclose.size_semaphore" => 40,
         "uclose.clear" => 41,
         "ustatus.available" => 50,
+        // implicit schedule points: an operation on the lock / a semaphore away from its explicit point
+        "!mutex.lock" => 90,
+        "!sem.acquire" => 91,
+        "!sem.try_acquire" => 92,
+        "!sem.add_permits" => 93,
+        "!sem.close" => 94,
+        "!sem.is_closed" => 95,
+        "!sem.available_permits" => 96,
         _ => 99,
     }
 }
